@@ -155,7 +155,7 @@ class Component(CaselessDict):
                                 # propagate upwards
     # not_compliant = ['']  # List of non-compliant properties.
 
-    def __init__(self, *args, **kwargs):
+    def __init__(self, /, *args, **kwargs):
         """Set keys to upper for initial dict.
         """
         super().__init__(*args, **kwargs)
